@@ -55,6 +55,23 @@ def directed(tier):
         u = dict(user, opt=[0])
         out.append({"graph": {"nodes": [ds, u], "junk": [], "tag": "f2"}, "entry": {"form": "all"}, "store_skips": False,
                     "observers": [], "placement": "directed-F2"})
+    # a combiner built DIRECTLY on a helper datasource (not through a spec); the helper is built on spec x, and the
+    # implementation of another spec z consumes the combiner.  Helper and combiner both fail: the combiner's failure belongs
+    # to itself and to the spec it is built on (x), never to z - in one evaluation, in every entry form and fault kind
+    for form in ("all", "incremental", "target"):
+        for oc in ("boom", "cpe", "valerr"):
+            nodes = [dict(base_ds, kind="impl", multi=False, implements=True),
+                     {"kind": "point", "part": 0, "impls": [0], "written": [], "opt": [], "outcome": "value", "enabled": True, "seeded": False, "multi": False, "prio": 0},
+                     dict(base_ds, multi=False, written=[1], outcome=oc),
+                     {"kind": "combiner", "part": 0, "written": [], "opt": [2], "opt_single": False, "outcome": "boom", "enabled": True, "seeded": False},
+                     dict(base_ds, kind="impl", multi=False, implements=True, written=[], opt=[3]),
+                     {"kind": "point", "part": 0, "impls": [4], "written": [], "opt": [], "outcome": "value", "enabled": True, "seeded": False, "multi": False, "prio": 0},
+                     {"kind": "rule", "part": 0, "written": [5], "opt": [3, 2], "opt_single": False, "outcome": "valerr", "enabled": True, "seeded": False}]
+            entry = {"form": form}
+            if form == "target":
+                entry["node"] = 6
+            out.append({"graph": {"nodes": copy.deepcopy(nodes), "junk": [], "tag": "hlp%s%s" % (form[:1], oc[:1])}, "entry": entry, "store_skips": False,
+                        "observers": [], "placement": "directed-helper-datasource"})
     from vpmon.props import c01
     out.append({"kind": "suite", "paths": c01.SUITE_QUICK if tier == "quick" else []})
     return out
